@@ -221,7 +221,8 @@ def stat_case(draw):
     beta = draw(st.sampled_from([1.0, 1.0, 0.4, 2.0]))
     geff = draw(st.floats(-20, 20))
     gam = geff / (nu * 4 * beta / (beta + 1) ** 2)
-    return dict(nu=nu, beta=beta, gamma=gam, h=draw(st.sampled_from([0.5, 0.5, 0.1, 0.9, 0.3])), T=draw(st.floats(0.05, 1.0)), theta0=draw(st.floats(0.5, 5.0)))
+    return dict(nu=nu, beta=beta, gamma=gam, h=draw(st.sampled_from([0.5, 0.5, 0.1, 0.9, 0.3])), T=draw(st.floats(0.05, 1.0)), theta0=draw(st.floats(0.5, 5.0)),
+                passing=draw(st.sampled_from(['const', 'nu-func', 'all-func'])))
 
 
 @REG.relation('R4-stationarity', strategy=stat_case, quick=(96, 16), thorough=(1500, 16))
@@ -229,22 +230,28 @@ def r4(c, rec):
     """The equilibrium density, integrated further under the same size and selection, is unchanged up to a grid error that
     vanishes under refinement (error(2 pts) <= 0.6 error(pts), or below 1e-5)."""
     n = 12
-    lab = ['nu=1' if c['nu'] == 1 else 'nu!=1', 'gamma~0' if abs(c['gamma']) < 1e-3 else 'gamma!=0', 'h=0.5' if c['h'] == 0.5 else 'h!=0.5']
+    lab = ['nu=1' if c['nu'] == 1 else 'nu!=1', 'gamma~0' if abs(c['gamma']) < 1e-3 else 'gamma!=0', 'h=0.5' if c['h'] == 0.5 else 'h!=0.5',
+           'passing=' + c.get('passing', 'const')]
     rec.case(c, abs(c['gamma']) > 1e-3, lab)
+    # the same constant history handed over as numbers or as functions of time (the latter takes the general time-stepping path)
+    mode = c.get('passing', 'const')
+    fn = lambda v: (lambda t, v=v: v)
+    nuarg = c['nu'] if mode == 'const' else fn(c['nu'])
+    garg, harg = (fn(c['gamma']), fn(c['h'])) if mode == 'all-func' else (c['gamma'], c['h'])
     Ds = []
     for pts in (40, 80):
         xx = Numerics.default_grid(pts)
         with dadi_call('phi_1D / one_pop'):
             phi = PhiManip.phi_1D(xx, nu=c['nu'], theta0=c['theta0'], gamma=c['gamma'], h=c['h'], beta=c['beta'])
             fs0 = np.asarray(np.ma.getdata(dadi.Spectrum.from_phi(phi, (n,), (xx,))), float)
-            phi2 = Integration.one_pop(phi, xx, c['T'], nu=c['nu'], gamma=c['gamma'], h=c['h'], theta0=c['theta0'], beta=c['beta'])
+            phi2 = Integration.one_pop(phi, xx, c['T'], nu=nuarg, gamma=garg, h=harg, theta0=c['theta0'], beta=c['beta'])
             fs1 = np.asarray(np.ma.getdata(dadi.Spectrum.from_phi(phi2, (n,), (xx,))), float)
         Ds.append(np.abs(fs1[1:n] - fs0[1:n]).max() / np.abs(fs0[1:n]).max())
     rec.err('drift at pts=80', Ds[1])
     if not (Ds[1] <= 0.6 * Ds[0] or Ds[1] <= 1e-5):
         sig = dict(finding='phi_1D-nu-in-selection') if (c['nu'] != 1 and abs(c['gamma']) > 1e-3) else {}
-        raise Violation('phi_1D(nu=%r, gamma=%r, h=%r, beta=%r) is not stationary under one_pop with the same parameters: spectrum drifts by '
-                        '%.3e at 40 grid points and %.3e at 80 (does not vanish under refinement)' % (c['nu'], c['gamma'], c['h'], c['beta'], Ds[0], Ds[1]), **sig)
+        raise Violation('phi_1D(nu=%r, gamma=%r, h=%r, beta=%r) is not stationary under one_pop with the same parameters (%s): spectrum drifts by '
+                        '%.3e at 40 grid points and %.3e at 80 (does not vanish under refinement)' % (c['nu'], c['gamma'], c['h'], c['beta'], mode, Ds[0], Ds[1]), **sig)
 
 
 @st.composite
